@@ -49,6 +49,13 @@ def pick_w(rng: random.Random, weights: Dict[str, float]) -> str:
     return items[-1][0]
 
 
+def _is_trigger(sim: dict, attr: str) -> bool:
+    kind = sim["ins"].get(attr)
+    if kind is None:      # any_inputs: undeclared attribute, default by type (hybrid: non-trigger)
+        return sim["type"] == "event-based"
+    return kind == "trigger"
+
+
 def gen_scenario(seed: int, profile: Optional[dict] = None) -> dict:
     prof = dict(DEFAULT_PROFILE)
     if profile:
@@ -94,8 +101,11 @@ def gen_scenario(seed: int, profile: Optional[dict] = None) -> dict:
             "Lmax": prof["Lmax"],
             "amplify": prof["amplify"],
         }
-        sims.append({"sid": f"S{i}", "type": typ, "path": list(path), "entities": ents,
-                     "ins": ins, "outs": outs, "beh": beh})
+        sim = {"sid": f"S{i}", "type": typ, "path": list(path), "entities": ents,
+               "ins": ins, "outs": outs, "beh": beh}
+        if rng.random() < prof.get("p_any_inputs", 0.12):
+            sim["any_inputs"] = True     # accepts every attribute name as input
+        sims.append(sim)
     # connections ---------------------------------------------------------
     order = list(range(n))
     rng.shuffle(order)
@@ -125,13 +135,15 @@ def gen_scenario(seed: int, profile: Optional[dict] = None) -> dict:
             kind = "shift" if (common(pa, pb) == 0 or rng.random() < 0.5) else "weak"
         sa = rng.choice(list(a["outs"]))
         da = rng.choice(list(b["ins"]))
+        if b.get("any_inputs") and rng.random() < 0.6:
+            da = f"x{rng.randrange(3)}"          # an attribute the model never declared
         se = rng.choice(a["entities"])
         de = rng.choice(b["entities"])
         slot = (a["sid"], se, b["sid"], de, da)
         if slot in used_slots:
             continue
         src_pers = a["outs"][sa] == "persistent"
-        dst_trig = b["ins"][da] == "trigger"
+        dst_trig = _is_trigger(b, da)
         c: Dict[str, Any] = {"src": a["sid"], "se": se, "sa": sa, "dst": b["sid"], "de": de, "da": da}
         if kind == "shift":
             c["shift"] = rng.randint(1, prof["max_shift"])
@@ -162,7 +174,7 @@ def gen_scenario(seed: int, profile: Optional[dict] = None) -> dict:
             a = next(s for s in sims if s["sid"] == c["src"])
             b = next(s for s in sims if s["sid"] == c["dst"])
             src_pers = a["outs"][c["sa"]] == "persistent"
-            dst_trig = b["ins"][c["da"]] == "trigger"
+            dst_trig = _is_trigger(b, c["da"])
             if not src_pers and not dst_trig:
                 continue
             c.pop("weak", None)
